@@ -262,6 +262,8 @@ func init() {
 		sh, td, w := c02ReaderFacts(s)
 		fs.Tri("shortHeaderIsEOF", sh, w)
 		fs.Tri("tornDataIsEOF", td, w)
+		t, w = c03CloseErrorAborts(s)
+		fs.Tri("closeErrorAborts", t, w)
 		c25ReaderAssumptions(fs, s)
 	}})
 }
